@@ -30,7 +30,7 @@ FN = ("Lambda", "nu", "ln_beta", "Sigma", "ln_det_Sigma", "mu", "M", "b")
 
 
 def roundtrip_case(kind, how, warm, D=2, R=2, timeout=400):
-    cid = f"C18/roundtrip/{how}/{kind}/warm{int(warm)}/D{D}R{R}"
+    cid = f"C18/roundtrip/{how}/{kind}/warm{warm if isinstance(warm, str) else int(warm)}/D{D}R{R}"
     cfg = dict(what="round trip", how=how, cls=kind, populated_caches=warm, D=D, R=R)
     is_cond = kind.startswith("cond_")
 
@@ -40,6 +40,8 @@ def roundtrip_case(kind, how, warm, D=2, R=2, timeout=400):
             b.free("x", (1, D)); b.free("y", (1, D))
         else:
             declare_factor(b, kind, "f_", R, D); b.free("x", (1, D))
+            if warm == "updated":
+                declare_factor(b, kind, "g_", 1, D)
 
     def fn(**A):
         import jax
@@ -48,7 +50,11 @@ def roundtrip_case(kind, how, warm, D=2, R=2, timeout=400):
             o = make_cond(kind[5:], "c_", A, D, D).obj
         else:
             o = make_factor(kind, "f_", A, D)
-        if warm and hasattr(o, "integrate"):
+        if warm == "updated":
+            import jax.numpy as jnp
+            # history: one component replaced by update(); the round trip must still agree with the eager object
+            o.update(jnp.array([R - 1]), make_factor(kind, "g_", A, D))
+        elif warm and hasattr(o, "integrate"):
             o.integrate("x")
         if how == "tree":
             leaves, td = jax.tree_util.tree_flatten(o)
@@ -68,6 +74,7 @@ def roundtrip_case(kind, how, warm, D=2, R=2, timeout=400):
             out = {"eval": q.evaluate_ln(A["x"]), "f": fields(q, FN)}
             if hasattr(q, "log_integral"):
                 out["logint"] = q.log_integral()
+                out["Ex"] = q.integrate("x")
             return out
         return [view(o), view(o2)]
 
@@ -278,6 +285,9 @@ def cases(tier, seed=0):
         for how in ("tree", "jit", "tree_map"):
             for warm in ((False, True) if k in ("measure", "diagmeasure", "pdf", "diagpdf") else (False,)):
                 out.append(roundtrip_case(k, how, warm))
+        if k in ("pdf", "diagpdf"):
+            for how in ("tree", "jit", "dict"):
+                out.append(roundtrip_case(k, how, "updated"))
         if not k.startswith("cond_"):
             out.append(roundtrip_case(k, "dict", False))
             if k in ("measure", "pdf"):
